@@ -41,6 +41,8 @@ def suite(wt):
 
 def main():
     props = sys.argv[1:]
+    scratch_mode = '--scratch' in props       # run the check against a scratch copy of HEAD + patch instead of /repo itself
+    props = [x for x in props if x != '--scratch']
     prefix = '/tmp/wt_'
     if '--prefix' in props:
         prefix = props[props.index('--prefix') + 1]
@@ -84,6 +86,33 @@ def main():
             for f in ('patch.diff', 'demo.py', 'notes.md'):
                 if os.path.exists(os.path.join(d, f)):
                     shutil.copy(os.path.join(d, f), os.path.join(dst, f))
+            if scratch_mode:
+                import tempfile
+                scr = tempfile.mkdtemp(prefix='py4hw_mut.')
+                sh('git -C /repo archive HEAD py4hw | tar -x -C ' + scr)
+                rc, out = sh('patch -s -p1 < ' + patch, cwd=scr)
+                if rc != 0:
+                    meta['check'] = 'patch does not apply to HEAD'
+                    meta['detected'] = None
+                else:
+                    ev = os.path.join(HERE, 'evidence', prop + '.json')
+                    saved = open(ev).read() if os.path.exists(ev) else None
+                    t0 = time.time()
+                    try:
+                        rc, out = sh('./check {} --tier quick'.format(prop), cwd=HERE, env=dict(os.environ, PY4HW_SRC=scr), timeout=3600)
+                    finally:
+                        shutil.rmtree(os.path.join(HERE, 'replay', prop, '_found'), ignore_errors=True)
+                        if saved is not None:
+                            open(ev, 'w').write(saved)
+                    viol = [l for l in out.splitlines() if l.startswith('VIOLATION')]
+                    sigs = [l for l in out.splitlines() if l.startswith('--- failure sig=')]
+                    meta['detected'] = bool(rc == 1 and viol)
+                    meta['check'] = './check {} --tier quick -> exit {} in {:.0f}s; {}'.format(prop, rc, time.time() - t0, '; '.join(sigs[:3])[:400])
+                    meta['ran'].append('scratch copy of /repo HEAD + patch.diff (PY4HW_SRC); ' + meta['check'])
+                shutil.rmtree(scr, ignore_errors=True)
+                json.dump(meta, open(os.path.join(dst, 'meta.json'), 'w'), indent=1)
+                print(meta['name'], 'confirmed', 'DETECTED' if meta['detected'] else ('MISSED' if meta['detected'] is False else 'N/A'), meta.get('check', '')[:200])
+                continue
             # run the registered check against /repo with the change applied
             rc, out = sh('git -C /repo apply --check ' + patch)
             if rc != 0:
